@@ -1452,7 +1452,7 @@ Qed.
 (* --- well-formed objects (what parse() produces) --- *)
 Definition cc_wf (st : cc) : Prop :=
   (forall F, is_numeric_type F = true -> isSet st F = true -> (0 <= get_num st F < 2147483648)%Z) /\
-  forallb qd_char (private_ st) = true /\ forallb qd_char (no_cache st) = true /\
+  forallb txt_char (private_ st) = true /\ forallb txt_char (no_cache st) = true /\
   cc_inv st /\ (forall n, CC_OTHER <= n -> isSet st n = false).
 
 (* the text httpHeaderParseQuotedString returns never contains DQUOTE, backslash or a CTL *)
@@ -1503,13 +1503,13 @@ Proof.
   - exact (IH _ _ _ _ _ Hi H).
 Qed.
 
-Lemma pqs_chars s len t : parse_quoted_string s len = QOk t -> forallb qd_char t = true.
+Lemma pqs_chars s len t : parse_quoted_string s len = QOk t -> forallb txt_char t = true.
 Proof.
   unfold parse_quoted_string. destruct (negb (hdz s =? 34)); [discriminate|].
   apply pqs_loop_chars. reflexivity.
 Qed.
 
-Lemma qs_text_chars it : forallb qd_char (qs_text (d_qs it)) = true.
+Lemma qs_text_chars it : forallb txt_char (qs_text (d_qs it)) = true.
 Proof.
   unfold d_qs. destruct (d_arg it) as [a|]; [|reflexivity]. cbn [qs_text].
   destruct (parse_quoted_string a (lenN a)) as [t| |] eqn:E; try reflexivity. exact (pqs_chars _ _ _ E).
@@ -1616,11 +1616,22 @@ Proof.
   cbn [forallb] in H. apply andb_prop in H. destruct H as [Hc Hr]. cbn [scan_q].
   replace (c =? 34) with false by lia. replace (c =? 44) with false by lia. now apply IH.
 Qed.
-Lemma scan_q_quoted : forall X, forallb qd_char X = true -> scan_q true (X ++ [34]) = Some false.
+Lemma scan_q_quoted : forall X, forallb txt_char X = true -> scan_q true (esc X ++ [34]) = Some false.
 Proof.
   induction X as [|c r IH]; intros H; [reflexivity|].
-  cbn [forallb] in H. apply andb_prop in H. destruct H as [Hc Hr]. cbn [app scan_q].
-  destruct (qd_char_plain c Hc) as (E34 & _ & _ & E92 & _). rewrite E34, E92. now apply IH.
+  cbn [forallb] in H. apply andb_prop in H. destruct H as [Hc Hr].
+  unfold esc. cbn [flat_map]. fold (esc r). destruct (is_special c) eqn:Es.
+  - cbn [app scan_q N.eqb Pos.eqb]. destruct (esc r ++ [34]) eqn:E; [destruct (esc r); discriminate|].
+    rewrite <- E. now apply IH.
+  - cbn [app scan_q]. unfold is_special in Es.
+    replace (c =? 34) with false by lia. replace (c =? 92) with false by lia. now apply IH.
+Qed.
+Lemma esc_no_nul X : forallb txt_char X = true -> no_nul (esc X).
+Proof.
+  unfold no_nul. induction X as [|c r IH]; intros H; [reflexivity|].
+  cbn [forallb] in H. apply andb_prop in H. destruct H as [Hc Hr].
+  unfold esc. cbn [flat_map]. fold (esc r). rewrite forallb_app, (IH Hr), andb_true_r.
+  unfold txt_char, rfc_pairable in Hc. destruct (is_special c); cbn [forallb]; lia.
 Qed.
 
 Lemma forallb_impl {A} (p q : A -> bool) l : (forall x, p x = true -> q x = true) ->
@@ -1642,7 +1653,7 @@ Qed.
 
 Definition arg_ok (a : bytes) : Prop :=
   a = [] \/ (exists ds, a = 61 :: ds /\ ds <> [] /\ forallb is_digit ds = true) \/
-  (exists X, a = 61 :: 34 :: X ++ [34] /\ forallb qd_char X = true).
+  (exists X, a = 61 :: 34 :: esc X ++ [34] /\ forallb txt_char X = true).
 
 Lemma good_name_arg F a : F < CC_OTHER -> arg_ok a -> good_item (nm F ++ a).
 Proof.
@@ -1670,21 +1681,21 @@ Proof.
     + unfold closed. rewrite (scan_q_app _ false false _ Hsc). apply scan_q_unq. cbn [forallb andb N.eqb Pos.eqb negb].
       apply (forallb_impl is_digit); [|exact Hds]. intros x Hx. unfold is_digit in *. lia.
   - split; [|split].
-    + replace ((n0 :: nr) ++ 61 :: 34 :: X ++ [34]) with (((n0 :: nr) ++ 61 :: 34 :: X) ++ [34])
+    + replace ((n0 :: nr) ++ 61 :: 34 :: esc X ++ [34]) with (((n0 :: nr) ++ 61 :: 34 :: esc X) ++ [34])
         by (rewrite <- !app_assoc; reflexivity).
       now apply ends_of_last.
     + apply no_nul_app. split; [exact Hnn|]. unfold no_nul. cbn [forallb andb N.eqb Pos.eqb negb].
       rewrite forallb_app. cbn [forallb andb N.eqb Pos.eqb negb]. rewrite andb_true_r.
-      apply (forallb_impl qd_char); [|exact HX]. intros x Hx. unfold qd_char in Hx. lia.
+      exact (esc_no_nul X HX).
     + unfold closed. rewrite (scan_q_app _ false false _ Hsc). cbn [scan_q N.eqb Pos.eqb]. now apply scan_q_quoted.
 Qed.
 
 (* --- each packed element, read back as an item --- *)
 Definition pk_arg (st : cc) (flag : N) : bytes :=
   if flag =? CC_PRIVATE then
-     match private_ st with [] => [] | v => [61; 34] ++ v ++ [34] end
+     match private_ st with [] => [] | v => 61 :: quote_string v end
    else if flag =? CC_NO_CACHE then
-     match no_cache st with [] => [] | v => [61; 34] ++ v ++ [34] end
+     match no_cache st with [] => [] | v => 61 :: quote_string v end
    else if flag =? CC_MAX_AGE then 61 :: dec_of_Z (max_age st)
    else if flag =? CC_S_MAXAGE then 61 :: dec_of_Z (s_maxage st)
    else if flag =? CC_MAX_STALE then
@@ -1710,12 +1721,12 @@ Inductive item_view (st : cc) (F : N) : Prop :=
        (F = CC_PRIVATE -> qs_text (d_qs (pack_one st F)) = private_ st) ->
        (F = CC_NO_CACHE -> qs_text (d_qs (pack_one st F)) = no_cache st) -> item_view st F.
 
-Lemma d_qs_quoted F X : F < CC_OTHER -> forallb qd_char X = true ->
-  d_qs (nm F ++ 61 :: 34 :: X ++ [34]) = Some (QOk X).
+Lemma d_qs_quoted F X : F < CC_OTHER -> forallb txt_char X = true ->
+  d_qs (nm F ++ 61 :: quote_string X) = Some (QOk X).
 Proof.
   intros HF HX. destruct (nm_facts F HF) as (Hn & _ & _).
-  unfold d_qs. destruct (d_name_eq (nm F) (34 :: X ++ [34]) Hn) as [_ ->].
-  f_equal. apply pqs_plain; [exact HX|]. cbn [lenN]. rewrite lenN_app. cbn [lenN]. lia.
+  unfold d_qs. destruct (d_name_eq (nm F) (quote_string X) Hn) as [_ ->].
+  f_equal. now apply pqs_quote_string.
 Qed.
 
 Lemma d_num_dec F v : F < CC_OTHER -> (0 <= v < 2147483648)%Z -> d_num (nm F ++ 61 :: dec_of_Z v) = Some v.
@@ -1772,22 +1783,22 @@ Proof.
     - intros ->. discriminate.
     - intros ->. discriminate. }
   (* quoted *)
-  assert (Hq : forall txt, (F = CC_PRIVATE \/ F = CC_NO_CACHE) -> forallb qd_char txt = true ->
+  assert (Hq : forall txt, (F = CC_PRIVATE \/ F = CC_NO_CACHE) -> forallb txt_char txt = true ->
                  (F = CC_PRIVATE -> txt = private_ st) -> (F = CC_NO_CACHE -> txt = no_cache st) ->
-                 pk_arg st F = match txt with [] => [] | a :: l => [61; 34] ++ (a :: l) ++ [34] end -> item_view st F).
+                 pk_arg st F = match txt with [] => [] | a :: l => 61 :: quote_string (a :: l) end -> item_view st F).
   { intros txt HFq Htxt Hp1 Hp2 Ha.
     assert (Ht : d_type (pack_one st F) = F).
     { rewrite pack_one_eq, Ha. apply d_type_name_arg; [exact HF|]. destruct txt; [now left|right; eexists; reflexivity]. }
     assert (Hqs : qs_text (d_qs (pack_one st F)) = txt).
     { rewrite pack_one_eq, Ha. destruct txt as [|t0 tr].
       - rewrite app_nil_r. destruct (d_plain F HF) as [_ ->]. reflexivity.
-      - cbn [app]. change (t0 :: tr ++ [34]) with ((t0 :: tr) ++ [34]). now rewrite (d_qs_quoted F (t0 :: tr) HF Htxt). }
+      - now rewrite (d_qs_quoted F (t0 :: tr) HF Htxt). }
     assert (Hok : match d_qs (pack_one st F) with Some QFail => false | Some QFuel => false | _ => true end = true).
     { rewrite pack_one_eq, Ha. destruct txt as [|t0 tr].
       - rewrite app_nil_r. destruct (d_plain F HF) as [_ ->]. reflexivity.
-      - cbn [app]. change (t0 :: tr ++ [34]) with ((t0 :: tr) ++ [34]). now rewrite (d_qs_quoted F (t0 :: tr) HF Htxt). }
+      - now rewrite (d_qs_quoted F (t0 :: tr) HF Htxt). }
     constructor.
-    - rewrite Ha. destruct txt as [|t0 tr]; [now left|]. right. right. exists (t0 :: tr). split; [reflexivity|exact Htxt].
+    - rewrite Ha. destruct txt as [|t0 tr]; [now left|]. right. right. exists (t0 :: tr). split; [now rewrite (quote_string_eq _ Htxt)|exact Htxt].
     - exact Ht.
     - unfold eff. rewrite Ht. destruct HFq as [->| ->]; [reflexivity|]. exact Hok.
     - intros Hn. destruct HFq as [->| ->]; discriminate.
